@@ -1,0 +1,6 @@
+//go:build !verif
+
+package pubsub
+
+func verifQueued()  {}
+func verifWritten() {}
